@@ -326,6 +326,152 @@ def run_impl(ctx, scn, seed):
     return executed, obs, notes
 
 
+# ---------------------------------------------------------------- incoming reads with several frames
+# Model: coq/C12/C12Segments.v (run_exc).  A case = the frames the peer sends (kind, does the stack raise on it),
+# how the network cuts the byte stream into reads, then trailing reads of one good frame each.
+SEG_EXC = {"garbage": "Exception", "notification_unsupported": "ValueError", "ack!": "RuntimeError"}
+
+
+def gen_coalesced(ctx):
+    quick = ctx.tier == "quick"
+    pats = [["garbage", "ack"], ["ack", "garbage", "ack", "ack"], ["notification_unsupported", "ack", "ack"],
+            ["ack!", "ack", "ack"], ["ack", "ack!", "ack"], ["garbage", "notification_unsupported", "ack"],
+            ["ack", "ack", "ack"], ["ack", "garbage"]]
+    cuts = ["one", "after_bad", "mid_next", "hdr_next", "bytewise3"]
+    sc = []
+    for pat in pats:
+        for cut in cuts:
+            sc.append({"cause": "coalesced", "frames": pat, "cut": cut, "pre": 0, "reconnect": False, "dir": "up",
+                       "occ": 0, "op": ["recv", "coalesced"], "layer": None})
+    if not quick:
+        kinds = ["ack", "ack", "ack", "garbage", "notification_unsupported", "ack!"]
+        for _ in range(300):
+            n = ctx.rng.randint(2, 6)
+            pat = [ctx.rng.choice(kinds) for _ in range(n)]
+            sc.append({"cause": "coalesced", "frames": pat, "cut": "random", "cutseed": ctx.rng.randrange(10 ** 9),
+                       "pre": 0, "reconnect": False, "dir": "up", "occ": 0, "op": ["recv", "coalesced"], "layer": None})
+    return sc
+
+
+def _cut_stream(frames, is_bad, how, rng):
+    """-> list of chunks (bytes) whose concatenation is the stream"""
+    stream = b"".join(frames)
+    offs, o = [], 0
+    for f in frames:
+        offs.append(o)
+        o += len(f)
+    first_bad = next((i for i, b in enumerate(is_bad) if b), None)
+    nxt = (first_bad + 1) if first_bad is not None and first_bad + 1 < len(frames) else None
+    if how == "one" or (how != "random" and how != "bytewise3" and nxt is None):
+        points = []
+    elif how == "after_bad":
+        points = [offs[nxt]]
+    elif how == "mid_next":
+        points = [offs[nxt] + max(1, len(frames[nxt]) // 2)]
+    elif how == "hdr_next":
+        points = [offs[nxt] + 3]
+    elif how == "bytewise3":
+        points = list(range(3, len(stream), max(3, len(stream) // 7)))
+    else:
+        k = rng.randint(0, 4)
+        points = sorted(set(rng.randrange(1, len(stream)) for _ in range(k))) if len(stream) > 1 else []
+    chunks, prev = [], 0
+    for pt in points + [len(stream)]:
+        if pt > prev:
+            chunks.append(stream[prev:pt])
+            prev = pt
+    return chunks
+
+
+def run_coalesced(ctx, model, scn, seed):
+    """-> (problems, diffs, observed) for one coalesced-frames case"""
+    import random as _random
+    from .. import c12rig
+    rig = c12rig.Rig(ctx.scratch, seed=seed)
+    worker = Worker()
+    segs = []
+    orig = rig.noise.receive
+
+    def tap(data):
+        segs.append(bytes(data))
+        return orig(data)
+    rig.noise.__dict__["receive"] = tap
+    seglayer = rig.by_name["segments"]
+    probs, diffs, observed = [], [], []
+    try:
+        kinds = list(scn["frames"])
+        nbad = sum(1 for k in kinds if k in SEG_EXC)
+        kinds_all = kinds + ["ack"] * (nbad + 1)          # trailing reads flush what a raising read left behind
+        frames, ids, is_bad = [], [], []
+        for k in kinds_all:
+            data, sid = rig.recv_frame("ack" if k == "ack!" else k, app_raises=(k == "ack!"))
+            frames.append(data)
+            ids.append(sid)
+            is_bad.append(k in SEG_EXC)
+        nlead = len(kinds)
+        chunks = _cut_stream(frames[:nlead], is_bad[:nlead], scn["cut"], _random.Random(scn.get("cutseed", 0)))
+        chunks += frames[nlead:]
+        top_ids0 = len(rig.top.seen_ids)
+        for ci, ch in enumerate(chunks):
+            s0 = len(segs)
+            st, r = worker.run(lambda ch=ch: rig.feed(ch), TIMEOUT)
+            if st != "done":
+                probs.append("read %d did not finish within %.1fs" % (ci, TIMEOUT))
+                break
+            locks = rig.lock_table()
+            observed.append({"read": ci, "bytes": len(ch), "outcome": r["outcome"], "exc": r["exc"],
+                             "segments_up": [x.hex()[:16] for x in segs[s0:]], "n_up": len(segs) - s0,
+                             "buffer_after": len(seglayer._read_buffer),
+                             "held": sorted(k for k, v in locks.items() if v)})
+            observed[-1]["_segs"] = segs[s0:]
+            observed[-1]["_buf"] = bytes(seglayer._read_buffer)
+            if any(locks.values()):
+                probs.append("after read %d locks stay held: %s" % (ci, observed[-1]["held"]))
+        # ---- property oracle on the implementation
+        if not probs:
+            want_top = [ids[i] for i, k in enumerate(kinds_all) if k in ("ack", "ack!")]
+            got_top = [x for x in rig.top.seen_ids[top_ids0:]]
+            if got_top != want_top:
+                probs.append("frames that reached the application: %s; sent (in order, each must arrive exactly once "
+                             "although an earlier frame of the same read failed): %s" % (got_top, want_top))
+            want_exc = [SEG_EXC[k] for k in kinds if k in SEG_EXC]
+            got_exc = [o["exc"] for o in observed if o["outcome"] == "raise"]
+            if got_exc != want_exc:
+                probs.append("failures reported to the caller of the read: %s, expected %s" % (got_exc, want_exc))
+            if seglayer._read_buffer:
+                probs.append("read buffer not empty after the last read: %d bytes" % len(seglayer._read_buffer))
+            st, r = worker.run(lambda: rig.op_send("presence"), TIMEOUT)
+            if st != "done" or r["outcome"] != "ok" or r["wire_frames"] != 1 or r["wire_error"]:
+                probs.append("follow-up send not processed normally: %s %s" % (st, r))
+        # ---- correspondence with the Coq model (run_exc)
+        if model is not None and observed:
+            bads = [frames[i][3:] for i, b in enumerate(is_bad) if b]
+            for upto in range(1, len(observed) + 1):
+                r = model.call("run_c12seg", [bads, b"", chunks[:upto]])
+                if isinstance(r, tuple):
+                    diffs.append("model run failed: %r" % (r,))
+                    break
+                calls, buf = r
+                mc = calls[upto - 1]
+                o = observed[upto - 1]
+                m_segs, m_raised = [bytes(x) for x in mc[0]], bool(mc[1])
+                if m_segs != o["_segs"] or m_raised != (o["outcome"] == "raise") or bytes(buf) != o["_buf"]:
+                    diffs.append("read %d: model hands up %d frame(s), raised=%s, buffer %d bytes; implementation %d "
+                                 "frame(s), outcome %s, buffer %d bytes" % (upto - 1, len(m_segs), m_raised, len(buf),
+                                                                           o["n_up"], o["outcome"], len(o["_buf"])))
+                    break
+    finally:
+        worker.stop()
+        try:
+            rig.close()
+        except Exception:
+            pass
+    for o in observed:
+        o.pop("_segs", None)
+        o.pop("_buf", None)
+    return probs, diffs, observed
+
+
 # ---------------------------------------------------------------- comparison
 OUTCOME = {0: "ok", 1: "raise", 2: "blocked", 3: "model_fuel"}
 
@@ -436,6 +582,7 @@ def run(ctx):
     exe = ctx.build_model("C12")
     model = modelrun.Model(exe) if exe else None
     scenarios = gen_scenarios(ctx)
+    coalesced = gen_coalesced(ctx)
     corpus_dir = os.path.join(os.path.dirname(os.path.dirname(os.path.dirname(os.path.abspath(__file__)))),
                               "corpus", "C12")
     if os.path.isdir(corpus_dir):
@@ -481,6 +628,36 @@ def run(ctx):
                                                         "observed": short_obs(obs)}, found_input=False)
         if idx % 37 == 0:
             ctx.add_sample({"scenario": scn, "ops": short_obs(obs)[:8]})
+    n_coal, n_coal_fail = 0, 0
+    for idx, scn in enumerate(coalesced):
+        if n_oracle >= 6 or n_corr >= 6:
+            break
+        try:
+            probs, diffs, observed = run_coalesced(ctx, model, scn, idx)
+        except Exception as e:
+            ctx.violation("harness:rig_failed", {"scenario": scn, "error": "%s: %s" % (e.__class__.__name__, e)},
+                          found_input=False)
+            n_corr += 1
+            continue
+        n_coal += 1
+        evaluations += 1
+        ops_total += len(observed)
+        by_cause["coalesced"] = by_cause.get("coalesced", 0) + 1
+        if any(o["outcome"] == "raise" for o in observed):
+            n_coal_fail += 1
+            distinct.add(json.dumps(["coalesced", scn["frames"], scn["cut"], scn.get("cutseed")]))
+        if probs:
+            n_oracle += 1
+            ctx.violation("oracle:incoming_frames_lost_after_failure",
+                          {"scenario": scn, "seed": idx, "problems": probs, "observed": observed, "model_diffs": diffs})
+        elif diffs:
+            n_corr += 1
+            ctx.violation("correspondence:C12.segments_exc", {"scenario": scn, "seed": idx, "diffs": diffs,
+                                                              "observed": observed}, found_input=False)
+        if idx % 17 == 3:
+            ctx.add_sample({"scenario": scn, "reads": observed[:6]}, limit=8)
+    ctx.coverage["coalesced_cases"] = n_coal
+    ctx.coverage["coalesced_cases_with_a_raising_read"] = n_coal_fail
     if model:
         r = model.call("run_c12", [build_table(True, True), 2, []])
         table_ok = (not isinstance(r, tuple)) and bool(r[0]) and bool(r[1])
@@ -516,6 +693,24 @@ def replay(ctx, data):
     scn = case["scenario"]
     exe = ctx.build_model("C12")
     model = modelrun.Model(exe) if exe else None
+    if scn.get("cause") == "coalesced":
+        probs, diffs, observed = run_coalesced(ctx, model, scn, case.get("seed", 0))
+        if model:
+            model.close()
+        print("scenario:", json.dumps(scn))
+        for o in observed:
+            print("observed:", json.dumps(o))
+        print("expected (C12_incoming_survives_failure): every frame is handed upward exactly once, in order; a read "
+              "whose frame fails raises at its caller and leaves the following frames in the read buffer for the "
+              "next read")
+        for p in probs:
+            print("problem:", p)
+        for d in diffs:
+            print("model-diff:", d)
+        if probs or diffs:
+            print("VIOLATION property=C12 replay=(replayed)")
+            return 1
+        return 0
     executed, obs, notes, probs, diffs, leaky = check_scenario(ctx, model, scn, case.get("seed", 0))
     if model:
         model.close()
